@@ -522,43 +522,87 @@ example : (editMap [("a", .name "x"), ("b", .name "y")] .popitem).1 = [("a", .na
     (editMap [("a", .name "x")] (.invDel (some "x"))) = ([], .ok) := by decide
 
 /-- **`replace_child`.** An accepted replacement leaves a world whose children are the old ones
-without the replaced child, followed by the replacement under the OLD label; the maps are
-untouched; and both accesses return — exactly the set expression over the NEW children. -/
+without the replaced child, followed by the replacement under the OLD label (whatever label it
+carried itself); the maps are untouched; and both accesses return — exactly the set expression
+over the NEW children (channels only the replacement has included, as the maps say). -/
 theorem C15_replace_panel (w : W) (l : String) (new : Child) (h : (step w (.replace l new)).2 = .ok) :
     let w' := (step w (.replace l new)).1
     (∃ old ∈ w.children, old.label = l ∧
       w'.children = w.children.filter (fun d => !(d.label == l)) ++ [{ new with label := l }]) ∧
     w'.imap = w.imap ∧ w'.omap = w.omap ∧ ∀ s, w'.panel s = some (w'.spec s) := by
   intro w'
-  have hmaps := replaceChild_maps w l new
-  have hw' : w' = (replaceChild w l new).1 := rfl
+  have hmaps := replaceChild_maps false w l new
+  have hw' : w' = (replaceChild false w l new).1 := rfl
   simp only [step] at h
   unfold replaceChild at h hw'
   cases hf : w.children.find? (fun d => d.label == l) with
   | none => simp [hf] at h
   | some old =>
-    simp only [hf] at h hw'
+    simp only [hf, Bool.false_eq_true, if_false] at h hw'
     have hmem := List.mem_of_find?_eq_some hf
     have hlab : old.label = l := by simpa using List.find?_some hf
-    split at h
-    · simp at h
-    · rw [if_neg (by assumption)] at hw'
-      split at h
-      · simp at h
-      · rw [if_neg (by assumption)] at hw'
-        split at h
-        · rename_i hp
-          rw [if_pos hp] at hw'
-          simp only [Bool.and_eq_true] at hp
-          refine ⟨⟨old, hmem, hlab, by rw [hw']⟩, hmaps.1, hmaps.2, ?_⟩
+    by_cases c1 : (!superset old new) = true
+    · simp [c1] at h
+    · by_cases c2 : ((w.panel .inputs).isNone || (!old.outs.isEmpty && (w.panel .outputs).isNone)) = true
+      · simp [c1, c2] at h
+      · cases hb : (replaceSwap w old l l new).buildable with
+        | false => simp [c1, c2, hb] at h
+        | true =>
+          simp only [c1, c2, hb, Bool.not_true, Bool.false_eq_true, if_false, if_true] at hw'
+          refine ⟨⟨old, hmem, hlab, by rw [hw']; rfl⟩, hmaps.1, hmaps.2, ?_⟩
           intro s
-          have : (w'.panel s).isSome := by
+          have hp : (w'.panel s).isSome := by
+            simp only [W.buildable, Bool.and_eq_true] at hb
             cases s
-            · rw [hw']; exact hp.1
-            · rw [hw']; exact hp.2
-          obtain ⟨p, hp'⟩ := Option.isSome_iff_exists.mp this
+            · rw [hw']; exact hb.1
+            · rw [hw']; exact hb.2
+          obtain ⟨p, hp'⟩ := Option.isSome_iff_exists.mp hp
           rw [hp', C15_io_spec w' s p hp']
-        · simp at h
+
+/-- **A refused replacement leaves everything as it was** — no such child, a replacement lacking
+a channel, a panel that cannot be built now, or one that could not be built AFTERWARDS (the keys
+the IO would have are worked out up front, under the label the replacement is about to receive):
+children, connections, maps and both panels are literally as before. -/
+theorem C15_replace_refused_noop (w : W) (l : String) (new : Child)
+    (h : (step w (.replace l new)).2 ≠ .ok) : (step w (.replace l new)).1 = w := by
+  simp only [step] at h ⊢
+  unfold replaceChild at h ⊢
+  cases hf : w.children.find? (fun d => d.label == l) with
+  | none => rfl
+  | some old =>
+    simp only [hf, Bool.false_eq_true, if_false] at h ⊢
+    by_cases c1 : (!superset old new) = true
+    · simp [c1]
+    · by_cases c2 : ((w.panel .inputs).isNone || (!old.outs.isEmpty && (w.panel .outputs).isNone)) = true
+      · simp [c1, c2]
+      · cases hb : (replaceSwap w old l l new).buildable with
+        | false => simp [c1, c2, hb]
+        | true => simp [c1, c2, hb] at h
+
+/-- keying the replacement's channels by the label it carries at that moment is not the same: a
+map that renames a channel only the replacement has onto a taken key goes unnoticed up front,
+the swap happens, and the workflow is left with an IO that cannot be built -/
+theorem C15_replace_own_label_witness :
+    ∃ (w : W) (l : String) (new : Child), (replaceChild true w l new).2 ≠ .ok ∧
+      ((replaceChild true w l new).1.panel .inputs).isNone ∧ (w.panel .inputs).isSome ∧
+      (replaceChild false w l new) = (w, .valueErr) := by
+  refine ⟨run (empty (fun _ _ => true) (fun _ _ => true))
+      [.add c0, .add c1, .setMap .inputs (some [("n1__d", some "n0__a")])], "n1",
+    { label := "upgrade", ins := [("a", 20), ("b", 21), ("c", 22), ("d", 23)], outs := [("o", 24)] },
+    by decide, by decide, by decide, ?_⟩
+  have h2 : (replaceChild false (run (empty (fun _ _ => true) (fun _ _ => true))
+      [.add c0, .add c1, .setMap .inputs (some [("n1__d", some "n0__a")])]) "n1"
+      { label := "upgrade", ins := [("a", 20), ("b", 21), ("c", 22), ("d", 23)], outs := [("o", 24)] }).2 = .valueErr := by decide
+  have h1 := C15_replace_refused_noop _ "n1"
+    { label := "upgrade", ins := [("a", 20), ("b", 21), ("c", 22), ("d", 23)], outs := [("o", 24)] }
+    (by simp only [step]; rw [h2]; decide)
+  simp only [step] at h1
+  exact Prod.ext h1 h2
+
+/-- the same replacement with a harmless map is accepted and exposes the new channel under its mapped name -/
+example : (step (run (empty (fun _ _ => true) (fun _ _ => true)) [.add c0, .add c1, .setMap .inputs (some [("n1__d", some "offset")])])
+    (.replace "n1" { label := "upgrade", ins := [("a", 20), ("b", 21), ("c", 22), ("d", 23)], outs := [("o", 24)] })).1.panel .inputs =
+    some [("n0__a", 0), ("n0__b", 1), ("n0__c", 2), ("n1__a", 20), ("n1__b", 21), ("n1__c", 22), ("offset", 23)] := by decide
 
 /-- non-vacuity: the README-like world, `n0` replaced by a node with channels 20…23 -/
 example : (step readmeW (.replace "n0" { label := "r", ins := [("a", 20), ("b", 21), ("c", 22)], outs := [("o", 23)] })).2 = .ok ∧
@@ -1015,3 +1059,5 @@ end PwVerif.C15
 #print axioms PwVerif.C15.C15_load_by_label_witness
 #print axioms PwVerif.C15.C15_item_access
 #print axioms PwVerif.C15.C15_item_via_getattr_witness
+#print axioms PwVerif.C15.C15_replace_refused_noop
+#print axioms PwVerif.C15.C15_replace_own_label_witness
